@@ -17,7 +17,14 @@ struct VectorVectorInt {
   VectorInt operator[](int i) const { VectorInt v; v.n = nondet_int(); __CPROVER_assume(v.n >= 0); return v; }
 };
 struct VH { static int count(const VectorVectorInt& v) { return nondet_int(); } };
-struct CovCalcMode {};
+// calculation mode: either all basic structures are active, or the listed ones (at most 2 structures are modelled: ranks 0 and 1)
+struct ActiveList { int n; int size() const { return n; } };
+struct CovCalcMode { bool all; int act[2]; int nact;
+  bool isAllActiveCov() const { return all; }
+  ActiveList getActiveCovList() const { ActiveList l; l.n = nact; return l; }
+  /* loop counters start at 0 and increase: under --havoc-loops only 'i < n' is known, so 0 <= i is assumed here */
+  int getActiveCovList(int i) const { __CPROVER_assume(0 <= i); __CPROVER_assert(i < nact, "rank inside the list of active structures"); return act[i]; } };
+static bool VF_structure_active(int id, const CovCalcMode* mode) { if (mode == nullptr || mode->all) return true; return (mode->nact >= 1 && mode->act[0] == id) || (mode->nact >= 2 && mode->act[1] == id); }
 struct SpacePoint { int iech; void setIech(int i) { iech = i; } };
 struct MatrixRectangular { int nr, nc; MatrixRectangular() : nr(0), nc(0) {} void resize(int r, int c) { nr = r; nc = c; } };
 struct MatrixSquareSymmetric { int nr, nc; MatrixSquareSymmetric() : nr(0), nc(0) {} void resize(int r, int c) { nr = r; nc = c; } };
@@ -28,18 +35,21 @@ struct Db {
 };
 // ghost typestate of the optimisation cache
 extern int g_cache_live;
-struct CovAniso {
+struct CovAniso { int id;
   void evalOptimInPlace(MatrixRectangular& mat, const VectorInt& ivars, const VectorVectorInt& index1, int ivar2, int icol, const CovCalcMode* mode, bool flagSym) const
-  { __CPROVER_assert(g_cache_live, "evalOptimInPlace only between pre- and post-process"); }
+  { __CPROVER_assert(g_cache_live, "evalOptimInPlace only between pre- and post-process");
+    __CPROVER_assert(VF_structure_active(id, mode), "only the basic structures that are ACTIVE in the calculation mode are evaluated (as the plain pairwise evaluation does)"); }
   void evalOptimInPlace(MatrixSquareSymmetric& mat, const VectorInt& ivars, const VectorVectorInt& index1, int ivar2, int icol, const CovCalcMode* mode, bool flagSym) const
-  { __CPROVER_assert(g_cache_live, "evalOptimInPlace only between pre- and post-process"); }
+  { __CPROVER_assert(g_cache_live, "evalOptimInPlace only between pre- and post-process");
+    __CPROVER_assert(VF_structure_active(id, mode), "only the basic structures that are ACTIVE in the calculation mode are evaluated (as the plain pairwise evaluation does)"); }
 };
-struct CovPtrs { CovAniso c; CovAniso* operator[](int i) const { return (CovAniso*)&c; } };
+struct CovPtrs { CovAniso c[2]; CovPtrs() { c[0].id = 0; c[1].id = 1; } CovAniso* operator[](int i) const { return (CovAniso*)(c + (i & 1)); } };
 class ACovAnisoList {
 public:
   MatrixRectangular evalCovMatrixOptim(const Db *db1, const Db *db2, int ivar0, int jvar0, const VectorInt& nbgh1, const VectorInt& nbgh2, const CovCalcMode *mode) const;
   MatrixSquareSymmetric evalCovMatrixSymmetricOptim(const Db *db1, int ivar0, const VectorInt &nbgh1, const CovCalcMode *mode) const;
   VectorInt _getActiveVariables(int ivar0) const { VectorInt v; v.n = nondet_int(); return v; }
+  static bool _considerAllCovariances(const CovCalcMode* mode) { if (mode == nullptr) return true; if (mode->isAllActiveCov()) return true; return false; }   /* ACovAnisoList.cpp:130 */
   void optimizationPreProcess(const Db* db) const { g_cache_live = 1; }
   void optimizationPostProcess() const { g_cache_live = 0; }
   void optimizationSetTarget(const SpacePoint& p) const {}
